@@ -193,6 +193,7 @@ type jGenOpts struct {
 	AlwaysAssigned     bool // every update carries a vehicle (C14)
 	InsideWindow       bool // window contains every trip
 	Collisions         bool // distinct trips sharing (start instant, suffix)
+	ForceHuge          int  // > 0: the history has exactly this many trips (few feeds, short stop lists)
 }
 
 // genHistory draws a history; ops reports which stop-list operations occurred per trip.
@@ -202,7 +203,11 @@ func genHistory(t *rapid.T, o jGenOpts) (*History, map[string]int) {
 	day := int64(1_700_006_400) // 2023-11-15T00:00:00Z
 	maxStops := 5
 	huge := 0
-	if rapid.IntRange(0, 19).Draw(t, "sizeClass") == 0 {
+	if o.ForceHuge > 0 {
+		huge = o.ForceHuge
+		o.MaxTrips, o.MaxFeeds, maxStops = huge, min(o.MaxFeeds, 4), 1
+		ops["huge-history"]++
+	} else if rapid.IntRange(0, 19).Draw(t, "sizeClass") == 0 {
 		n := rapid.SampledFrom([]int{17, 33, 70, 130, 260}).Draw(t, "sizeN")
 		switch rapid.IntRange(0, 3).Draw(t, "sizeWhat") {
 		case 3:
@@ -265,6 +270,9 @@ func genHistory(t *rapid.T, o jGenOpts) (*History, map[string]int) {
 	}
 	nT = len(h.Pool)
 	nF := rapid.IntRange(1, o.MaxFeeds).Draw(t, "nFeeds")
+	if o.ForceHuge > 0 {
+		nF = rapid.IntRange(3, 4).Draw(t, "nFeedsHuge") // vanish and reappear need three feeds
+	}
 	tcur := int64(1_700_010_000)
 	last := make([][]JStop, nT)      // last reported stop list per trip
 	seenBefore := make([]bool, nT)   // reported in an earlier feed
@@ -776,4 +784,31 @@ func TestC14Long(outer *testing.T) {
 			fail = msg
 		}
 	})
+}
+
+// TestC15Large: histories over 9000 and 100000 trips (three or four feeds, so that more than 65,536 are known when trips vanish and reappear) (few feeds, short stop lists) against the reference journal model.
+func TestC15Large(outerT *testing.T) {
+	for _, k := range [][2]int{{9000, 1}, {100000, 1}, {100000, 0}} {
+		n, wide := k[0], k[1] == 1
+		outerT.Run(fmt.Sprintf("%d-wide=%v", n, wide), func(outer *testing.T) {
+			fail := ""
+			defer func() {
+				if fail != "" {
+					outer.Fatalf("%s", fail)
+				}
+			}()
+			rapid.Check(outer, func(t *rapid.T) {
+				o := jGenOpts{MaxTrips: 6, MaxFeeds: 3, ForceHuge: n, InsideWindow: wide}
+				h, _ := genHistory(t, o)
+				h.Env = genEnv(t)
+				c15Rec.Eval(fmt.Sprintf("large:trips>=%d", n))
+				c15Rec.NontrivialCase(vt.Fingerprint([]any{n, len(h.Feeds), h.WindowStart, h.WindowEnd}), func() any {
+					return map[string]any{"trips_total": len(h.Pool), "feeds": len(h.Feeds), "window": []int64{h.WindowStart, h.WindowEnd}}
+				})
+				if msg := vt.Try(c15Rec, *h, checkC15); msg != "" && fail == "" {
+					fail = msg
+				}
+			})
+		})
+	}
 }
